@@ -256,8 +256,35 @@ class Prover:
                     self.stats[be] += 1
                     return "proved", be, dt, None, None
             if r == z3.unknown:
+                # the full-budget attempt runs in a forked child under a hard wall-clock limit: inside its model-based
+                # quantifier instantiation over sequences z3 5.1 sometimes neither honours its timeout nor sees interrupt()
+                # (seen twice: a worker at 100 % CPU for 20 minutes in theory_seq::propagate under model_checker::check)
                 s.set("timeout", full)
-                r = guarded(s, full)
+
+                def job2():
+                    rr = s.check()
+                    md = None
+                    if rr == z3.sat and want_model:
+                        m = s.model()
+                        md = _model_to_dict(m)
+                        if eval_terms:
+                            for k, t in eval_terms.items():
+                                try:
+                                    md["@" + k] = str(m.eval(t, model_completion=True))
+                                except Exception:
+                                    pass
+                    return [str(rr), md, s.reason_unknown() if rr == z3.unknown else None]
+                ok, val = forked(job2, full / 1000.0 + 5)
+                dt = time.time() - t0
+                if not ok:
+                    return "unknown", "z3", dt, None, "hard timeout (%s)" % val
+                rs, md, reason = val
+                if rs == "unsat":
+                    self.stats["z3"] += 1
+                    return "proved", "z3", dt, None, None
+                if rs == "sat":
+                    return "refuted", "z3", dt, md, None
+                return "unknown", "z3", dt, None, reason
         else:
             r = guarded(s, full)
         dt = time.time() - t0
